@@ -94,6 +94,12 @@ CHECKS = {
          "the CS/CA stream is decoded slot by slot with independent JESD209-4/-5 decoders and must equal the non-overlapped DFI commands at slot latency + phase, operands bit for bit; every operand bit must toggle in every shard; MPC op codes exhaustively.",
     note=SIMNOTE + " lib/jedec_ca.py is a transcription of the JEDEC truth tables from memory of the standards; single rank; vendor SERDES PHYs are not simulated.",
     technique=PBT + "independent JEDEC command decoders (round trip: encode by the PHY, decode by the reference)"),
+ "C15": dict(category="fault_enumeration", design_ref="DESIGN.md section 3, C15 and 8",
+    text="LiteDRAMNativePortECC (lane data widths 8/16/32/64, burst_cycles 1-8) between a conforming master and a memory stub whose stored words are XOR-ed with a flip mask: EVERY lane x EVERY stored bit position as a single flip "
+         "(original data returned, never uncorrectable, counted as corrected exactly once unless it is the overall parity bit) and position PAIRS (quick: all singles + a seeded ~10% sample of pairs; thorough: all pairs, 8 data words each: 1.85 M double flips) "
+         "-> uncorrectable counted, never clean or corrected; sticky flags, clear; full writes raise no granularity error, partial-lane writes do; stored code words have distance >= 4.",
+    note=SIMNOTE + " lib/secded.py (textbook extended Hamming) is used for the distance cross-check only. For lanes whose stored width is not a whole number of bytes, memory-side enables/read-back after PARTIAL writes are not judged (lanes share bytes; the property only asks that such writes are reported).",
+    technique="fault enumeration (every single flip, pairs enumerated or sampled by Hypothesis) + property-based byte-enable patterns against the SECDED contract"),
  "C16": dict(
     category="exploration",
     text="Dense deterministic grid (every module class x speedgrade x rate x fine-refresh mode x controller clock) plus Hypothesis-drawn "
